@@ -226,5 +226,8 @@ def run(tier: str, seed: int) -> Result:
                          with_tags=True)
     if rng.random() < 0.6 and not isinstance(root, config_lib.Buildable):
       root = fdl.Config(l2.fa, root, b=root)
+    if rng.random() < 0.4:
+      from harness import c14
+      c14.tag_positional(rng, root)    # tags on positional (index) arguments, set or not, and on **kwargs entries
     one_case(rng, res, intern, stream, root, f"cfg#{i}")
   return res
